@@ -55,5 +55,13 @@ PROPS = {
     'C20': dict(units=['loop'], level='proof', trusted_base=TB_LOOP, assumptions=AS_LOOP, witness=None),
     'C14': dict(units=['converter', 'mapper', 'glue'], level='proof', trusted_base=TB_MAPPER + TB_CONV[4:], assumptions=AS_CONV + AS_MAPPER, witness=None),
     'C13': dict(units=['converter'], level='proof', trusted_base=TB_CONV, assumptions=AS_CONV, witness=None),
+    'C17': dict(units=['udev'], level='proof', extras=['udev_enum'], witness=None,
+                trusted_base=TB_COMMON[:2] + [
+                    'the specification of systemd\'s ExecStart parsing in /verif/spec/sd.rs (written from systemd.syntax(7) / systemd.service(5): word splitting at unquoted whitespace, quotes, C-style escapes, lone `;`, %% and $$); octal and \\U escapes are treated as not accepted, which only makes the oracle stricter',
+                    'E4: escape_one_char, systemd_arg_escape, build_exclude_text, build_service_text are compiled VERBATIM into the enumeration driver (verus --compile); they are not verified by Verus (str iterators, format!)',
+                    'the link from single characters to arbitrary patterns: systemd_arg_escape concatenates escape_one_char over the characters, build_exclude_text joins `--exclude <escaped>` with single spaces, build_service_text substitutes into the fixed template (assumed; exercised end to end by the driver on pairs, triples and random lists)',
+                ],
+                assumptions=['patterns are non-empty and contain no NUL (as in the statement)',
+                             'the per-character condition char_ok is established for the real escape_one_char by COMPLETE enumeration of all 1,112,063 scalar values (exhaustive evaluation, not deduction); the theorem that lifts it to every pattern and every position is proved by Verus for an arbitrary escaper satisfying char_ok']),
     'C07': dict(units=['mapper'], level='proof', trusted_base=TB_MAPPER, assumptions=AS_MAPPER, witness='mapper', rests_on=['C19']),
 }
